@@ -1686,8 +1686,10 @@ class DNA(symbolic.Object):
       if k in self._cloneable_metadata_keys:
         metadata[k] = v
     # NOTE: the clone carries the sealed flag of the original.
-    with symbolic.as_sealed(False):
-      other.rebind(metadata=metadata)
+    sealed = other.is_sealed
+    other.seal(False)
+    other.rebind(metadata=metadata)
+    other.seal(sealed)
     other._cloneable_metadata_keys = set(self._cloneable_metadata_keys)  # pylint: disable=protected-access
     return other
 
